@@ -176,4 +176,57 @@ example : (poolOfKindAfterInit 7 7 .PositionImpact).map Pool.isPure = some false
 example : (poolOfKindAfterInit 7 8 .SwapImpact).map Pool.isPure = some false := by decide +kernel
 example : flagAfterInit .SkipBorrowingFeeForSmallerSide = some true := by decide +kernel
 
+/-! ## audit additions -/
+
+/-- `every_default_constant_used` ranges over a non-trivial set: many `DEFAULT_*` constants, and the
+prefix premise does discriminate (some market constant is not a default) -/
+example : (marketConsts.filter fun c => c.codes.take 8 == asc "DEFAULT_").length ≥ 50 ∧
+    (marketConsts.filter fun c => !(c.codes.take 8 == asc "DEFAULT_")).length ≥ 1 := by decide +kernel
+
+/-- … instantiated: the reserve-factor default is consumed by `init` -/
+example : (Field.all.any (fun f => initAssign f == some .DEFAULT_RESERVE_FACTOR)
+    || initFlags.any (fun p => p.2 == Const.DEFAULT_RESERVE_FACTOR)) = true :=
+  every_default_constant_used .DEFAULT_RESERVE_FACTOR (by decide +kernel) (by decide +kernel)
+
+/-- `market_closed_defaults_equal_base` does not hold through `none = none`: the closed-market
+parameters start at defined, NON-ZERO values -/
+example : (fieldAfterInit .market_closed_min_collateral_factor_for_liquidation).isSome = true ∧
+    fieldAfterInit .market_closed_min_collateral_factor_for_liquidation ≠ some 0 ∧
+    fieldAfterInit .market_closed_borrowing_fee_base_factor ≠ some 0 ∧
+    (fieldAfterInit .market_closed_borrowing_fee_base_factor).isSome = true ∧
+    fieldAfterInit .market_closed_borrowing_fee_above_optimal_usage_factor ≠ some 0 ∧
+    (fieldAfterInit .market_closed_borrowing_fee_above_optimal_usage_factor).isSome = true := by decide +kernel
+
+/-- the defaults are not all one value (the table is not degenerate): two keys with different defaults -/
+example : keyAfterInit .ReserveFactor ≠ keyAfterInit .MinCollateralFactorForLiquidation := by decide +kernel
+
+/-- `flagInitConst` / `flagAfterInit` take the LAST `set_flag` of a flag; `init` sets every flag at most
+once, so "last" and "first" coincide and no earlier assignment is silently overwritten -/
+theorem flag_set_at_most_once : ∀ x : Flag, (initFlags.filter (fun p => p.1 == x)).length ≤ 1 := by
+  intro x; cases x <;> decide +kernel
+
+/-- `fieldAfterInit` answers `some 0` for a field `init` does NOT assign (the zeroed default). That
+branch is never taken (`every_field_initialised`); stated on the value function itself: the value of
+every field IS the numeric value of the constant assigned to it. -/
+theorem field_value_is_its_constant :
+    ∀ f : Field, ∃ c, initAssign f = some c ∧ fieldAfterInit f = c.nat? ∧ (c.nat?).isSome = true := by
+  intro f
+  have h1 := every_field_initialised f
+  have h2 := every_field_has_value f
+  cases hc : initAssign f with
+  | none => rw [hc] at h1; cases h1
+  | some c =>
+    refine ⟨c, rfl, ?_, ?_⟩
+    · simp [fieldAfterInit, hc]
+    · simpa [fieldAfterInit, hc] using h2
+
+/-- flag defaults, concretely (both closed-market related flags: the variant starts equal to its base
+flag, the switch starts off) -/
+example : flagAfterInit .MarketClosedSkipBorrowingFeeForSmallerSide = flagAfterInit .SkipBorrowingFeeForSmallerSide ∧
+    flagAfterInit .EnableMarketClosedParams = some false ∧ flagInitConst .EnableMarketClosedParams = none := by
+  decide +kernel
+
+/-- the pool tables are non-trivial: several kinds, every storage field visited -/
+example : Kind.all.length ≥ 10 ∧ initPurity.length = Kind.all.length := by decide +kernel
+
 end Gmx.C17
